@@ -1,6 +1,7 @@
 package core
 
 import (
+	"encoding/hex"
 	"strconv"
 	"encoding/binary"
 	"encoding/json"
@@ -356,4 +357,92 @@ func CLIStats(path string) (map[string]int, bool) {
 		return nil, false
 	}
 	return res, true
+}
+
+// cliView queries the closed database through the command-line tool: `bbolt buckets`, `bbolt keys` for a few
+// (nested) buckets and `bbolt get` for a few keys. Which buckets / keys are asked for is chosen from the final
+// dump; what the answers must be is decided by TLC from the specification's committed state (TraceKV!TCLIView).
+func cliView(path string, prof Profile, final map[string]any, rng *rand.Rand) Ev {
+	hexIDs := func(out string, val bool) ([]int, bool) {
+		ids := []int{}
+		for _, l := range strings.Split(strings.TrimRight(out, "\n"), "\n") {
+			if l == "" && !val {
+				continue
+			}
+			b, err := hex.DecodeString(strings.TrimSpace(l))
+			if err != nil {
+				return ids, false
+			}
+			if val {
+				ids = append(ids, prof.ValID(b))
+			} else {
+				ids = append(ids, prof.KeyID(b))
+			}
+		}
+		return ids, true
+	}
+	e := Ev{"ev": "CLIView"}
+	out, code := CLI(60*time.Second, "buckets", path)
+	top := []int{}
+	for _, l := range strings.Split(strings.TrimRight(out, "\n"), "\n") {
+		if l != "" {
+			top = append(top, prof.KeyID([]byte(l)))
+		}
+	}
+	e["buckets"], e["bucketsOK"] = top, code == 0
+	// every bucket path of the final state whose names can be given on a command line
+	type bk struct {
+		path []int
+		d    map[string]any
+	}
+	var all []bk
+	var walk func(d map[string]any, pre []int)
+	walk = func(d map[string]any, pre []int) {
+		ks, _ := d["ks"].([]int)
+		es, _ := d["es"].([]any)
+		for i, k := range ks {
+			m, _ := es[i].(map[string]any)
+			if m["t"] == "b" && k > EmptyKey && k < BigKey {
+				p := append(append([]int{}, pre...), k)
+				sub, _ := m["b"].(map[string]any)
+				all = append(all, bk{p, sub})
+				walk(sub, p)
+			}
+		}
+	}
+	walk(final, nil)
+	rng.Shuffle(len(all), func(i, j int) { all[i], all[j] = all[j], all[i] })
+	if len(all) > 5 {
+		all = all[:5]
+	}
+	keys, gets := []map[string]any{}, []map[string]any{}
+	for _, b := range all {
+		names := []string{}
+		for _, k := range b.path {
+			names = append(names, string(prof.Key(k)))
+		}
+		out, code := CLI(60*time.Second, append([]string{"keys", "--format", "hex", path}, names...)...)
+		ids, ok := hexIDs(out, false)
+		keys = append(keys, map[string]any{"path": b.path, "keys": ids, "ok": ok && code == 0})
+		ks, _ := b.d["ks"].([]int)
+		es, _ := b.d["es"].([]any)
+		asked := 0
+		for i, k := range ks {
+			m, _ := es[i].(map[string]any)
+			if m["t"] != "v" || k <= EmptyKey || k >= BigKey || asked >= 3 {
+				continue
+			}
+			asked++
+			args := append([]string{"get", "--format", "hex", path}, names...)
+			out, code := CLI(60*time.Second, append(args, string(prof.Key(k)))...)
+			v, ok := hexIDs(out, true)
+			vid := Unknown
+			if ok && len(v) == 1 {
+				vid = v[0]
+			}
+			gets = append(gets, map[string]any{"path": b.path, "k": k, "v": vid, "ok": code == 0})
+		}
+	}
+	e["keys"], e["gets"] = keys, gets
+	return e
 }
